@@ -372,7 +372,7 @@ def recycle(sc):
         except BaseException as exc:      # noqa
             o = ('exc', type(exc).__name__, str(exc)[:200])
     elif sc['job'] == 'map':
-        o = _outcome(pool.map_async(fn, list(range(N)), 1), 25)
+        o = _outcome(pool.map_async(fn, list(range(N)), sc.get('chunk', 1)), 25)
         pairs = o[1] if o[0] == 'ok' else []
     else:
         hs = [pool.apply_async(fn, (i,)) for i in range(N)]
@@ -380,10 +380,11 @@ def recycle(sc):
         o = ('ok', None) if all(x[0] == 'ok' for x in outs) else next(x for x in outs if x[0] != 'ok')
         pairs = [x[1] for x in outs if x[0] == 'ok']
     per = {}
+    chunk = sc.get('chunk', 1) if sc['job'] == 'map' else 1
     for pid, x in pairs:
-        per[pid] = per.get(pid, 0) + 1
+        per.setdefault(pid, set()).add(x // chunk)      # the quota counts tasks: a task is one part
     return {'kind': 'recycle', 'outcome': o[0], 'exc': o[1] if o[0] == 'exc' else '',
-            'max_per_worker': max(per.values()) if per else 0, 'quota': n,
+            'max_per_worker': max(len(v) for v in per.values()) if per else 0, 'quota': n,
             'secs10': int((time.monotonic() - t0) * 10),
             'items': sorted(x for _, x in pairs) == list(range(N))}
 
